@@ -30,6 +30,8 @@ CONFIGS = {
                      "HBS_LMS_WINTERNITZ_PARAMETERS": "8, 8"}, "features": ["hbs_lms_verif"]},
     "w8big": {"env": {"HBS_LMS_WINTERNITZ_PARAMETERS": "8, 8, 8, 8, 8, 8, 8, 8", "RUSTFLAGS": "--cfg kani_biglog"}, "features": ["hbs_lms_verif"]},
     "defaultbig": {"env": {"RUSTFLAGS": "--cfg kani_biglog"}, "features": ["hbs_lms_verif"]},
+    "L3w8": {"env": {"HBS_LMS_MAX_ALLOWED_HSS_LEVELS": "3", "HBS_LMS_TREE_HEIGHTS": "25, 25, 25",
+                     "HBS_LMS_WINTERNITZ_PARAMETERS": "8, 8, 8"}, "features": ["hbs_lms_verif"]},
     "fastverify": {"env": {"HBS_LMS_MAX_HASH_OPTIMIZATIONS": "4", "HBS_LMS_THREADS": "1"},
                    "features": ["hbs_lms_verif", "fast_verify"]},
     "L1": {"env": {"HBS_LMS_MAX_ALLOWED_HSS_LEVELS": "1", "HBS_LMS_TREE_HEIGHTS": "25",
